@@ -579,7 +579,14 @@ class PrecipitateModel (PrecipitateBase):
             #Only the growth rate needs to be updated, since all other terms are previous
             #Also revert the PSD in case this function was called to adjust for the new PSD bins
             else:
-                growthRate = self.growth[p]
+                #There is no previous growth rate if this is the first calculation (during setup)
+                prevGrowth = getattr(self, 'growth', None)
+                growthRate = prevGrowth[p] if prevGrowth is not None else np.zeros(self.PBM[p].bins + 1)
+                xEqAlpha = self.pData.xEqAlpha[self.pData.n,p]
+                xEqBeta = self.pData.xEqBeta[self.pData.n,p]
+                if self.PSDXalpha[p] is None:
+                    self.PSDXalpha[p] = np.zeros((self.PBM[p].bins + 1, self.numberOfElements))
+                    self.PSDXbeta[p] = np.zeros((self.PBM[p].bins + 1, self.numberOfElements))
         else:
             growth, xAlpha, xBeta, xEqAlpha, xEqBeta = growth_result
             #Update interfacial composition for each precipitate size
